@@ -18,8 +18,8 @@ func init() {
 	register(&Check{
 		ID: "C11", Level: "exploration", Primary: "states", EvalCount: "stops",
 		Rule: "liveness restated as bounded progress: Stop must return within B=10s (an order of magnitude above what a correct implementation needs) WITHOUT any client action, and Run must then return nil. " +
-			"One evaluation = a fresh server brought into a connection state (none; 1/8/64 idle; half a frame sent; TLS listener with no / partial ClientHello; StartTLS-upgraded idle; busy pipelining; clients not reading " +
-			"large responses so that handlers block in Write; all of them together) x optional concurrent second Stop, then Stop is called. If B expires the harness dumps goroutines and lets the clients go: a Stop parked in " +
+			"One evaluation = a fresh server brought into a connection state (none; 1/8/64 idle; half a frame sent; TLS listener with no / partial ClientHello; StartTLS-upgraded idle; StartTLS answered but handshake never started; busy pipelining; clients not reading " +
+			"large responses so that handlers block in Write - alone and combined ON THE SAME CONNECTION with an Unbind, a half-close, a pending StartTLS handshake or half a frame; all of them together) x optional concurrent second Stop, then Stop is called. If B expires the harness dumps goroutines and lets the clients go: a Stop parked in " +
 			"WaitGroup.Wait with a gldap connection goroutine parked in network I/O, released only when the clients close, is a violation; anything else is inconclusive. " +
 			"distinct_nontrivial = distinct (state, #connections, second-Stop) triples with at least one connection open at Stop time",
 		Assume: []string{"handlers that block in application code (not in gldap's Write) are outside the statement: the workload's handlers only ever block inside ResponseWriter.Write"},
@@ -40,7 +40,8 @@ type c11State struct {
 
 func c11Run(c *Ctx) {
 	pki := newPKI()
-	states := []string{"none", "idle", "half-frame", "tls-no-hello", "tls-partial-hello", "starttls-idle", "busy-pipelining", "not-reading", "mixed"}
+	states := []string{"none", "idle", "half-frame", "tls-no-hello", "tls-partial-hello", "starttls-idle", "starttls-pending", "busy-pipelining", "not-reading",
+		"not-reading+unbind", "not-reading+half-close", "not-reading+starttls-pending", "not-reading+half-frame", "mixed"}
 	counts := []int{1, 8}
 	reps := 1
 	if !c.Quick() {
@@ -159,18 +160,33 @@ func c11One(c *Ctx, pki *PKI, st c11State) {
 			}()
 		case "not-reading":
 			cn.Write(search(1, "big"))
+		case "starttls-pending":
+			// StartTLS requested and answered, the client never starts the handshake
+			cn.Write(sber.Message(1, sber.ExtendedRequest([]byte(sber.OIDStartTLS), nil, false), nil).Encode())
+			wrapClient(cn).ReadMsg(patience)
+		case "not-reading+unbind":
+			// a handler blocked in Write, then the read loop ends (Unbind) while the client keeps the socket open
+			cn.Write(append(search(1, "big"), sber.Message(2, sber.UnbindRequest(), nil).Encode()...))
+		case "not-reading+half-close":
+			cn.Write(search(1, "big"))
+			cn.(*net.TCPConn).CloseWrite()
+		case "not-reading+starttls-pending":
+			cn.Write(append(search(1, "big"), sber.Message(2, sber.ExtendedRequest([]byte(sber.OIDStartTLS), nil, false), nil).Encode()...))
+		case "not-reading+half-frame":
+			f := search(2, "x")
+			cn.Write(append(search(1, "big"), f[:len(f)/2]...))
 		}
 	}
 	kinds := []string{st.Name}
 	if st.Name == "mixed" {
-		kinds = []string{"idle", "half-frame", "starttls-idle", "busy-pipelining", "not-reading"}
+		kinds = []string{"idle", "half-frame", "starttls-idle", "busy-pipelining", "not-reading", "starttls-pending", "not-reading+unbind", "not-reading+half-close", "not-reading+starttls-pending"}
 	}
 	if st.Name != "none" {
 		for i := 0; i < st.Conns; i++ {
 			open(kinds[i%len(kinds)])
 		}
 	}
-	if st.Name == "not-reading" || st.Name == "mixed" {
+	if strings.HasPrefix(st.Name, "not-reading") || st.Name == "mixed" {
 		// wait until handlers are really blocked inside Write (socket buffers full)
 		for dl := time.Now().Add(5 * time.Second); time.Now().Before(dl); time.Sleep(20 * time.Millisecond) {
 			if blockedWrites.Load() > 0 {
